@@ -179,6 +179,8 @@ type Info struct {
 	E        int  // decimal exponent e of the result (toExponential / toPrecision)
 	HasE     bool
 	Shortest bool // digits chosen by the shortest rule (undefined argument)
+	Digits   string // toPrecision: the p digits of n before punctuation (finite non-zero x)
+	Sign     string // "-" or ""
 }
 
 // ToFixed is Number.prototype.toFixed (15.7.4.5); fd nil = undefined.
@@ -220,6 +222,14 @@ func ToFixed(x float64, fd *float64) (Res, Info) {
 		m = m[:k-fi] + "." + m[k-fi:]
 	}
 	return Res{S: s + m}, info
+}
+
+// ExpForm writes digits in the exponential layout of 15.7.4.7 step 10.c: d.ddd e±x.
+func ExpForm(digits string, e int) string {
+	if len(digits) > 1 {
+		digits = digits[:1] + "." + digits[1:]
+	}
+	return digits + expSuffix(e)
 }
 
 func expSuffix(e int) string {
@@ -303,6 +313,7 @@ func ToPrecision(x float64, prec *float64) (Res, Info) {
 	} else {
 		m, e, info.Tie = expDigits(x, pi-1)
 		info.E, info.HasE = e, true
+		info.Digits, info.Sign = m, s
 		if e < -6 || e >= pi {
 			info.Exp = true
 			if pi != 1 {
